@@ -23,6 +23,9 @@ func (st *State) chanInit(ch, size Term) {
 	st.setComp("CH!closed", Sto(b, ch, TFalse))
 }
 
+// isDoneChan: the channel is syntactically a context's Done() channel.
+func isDoneChan(ch Term) bool { return strings.HasPrefix(ch.S, "(ctx.done ") }
+
 func (st *State) chSel(comp string, ch Term) Term {
 	return Sel(st.comp(comp, ArrSort(SI, SI)), ch)
 }
@@ -32,6 +35,11 @@ func (st *State) chanEnvClose(ch Term) {
 	c := st.comp("CH!closed", ArrSort(SI, SB))
 	n := st.fresh("closed", SB)
 	st.assume(Imp(Sel(c, ch), n))
+	// only context.Done channels are closed behind the function's back; the
+	// single close() in /repo (stream.wait on stopCh) is checked by the frame scan close-sites
+	if !isDoneChan(ch) {
+		st.assume(Eq(n, Sel(c, ch)))
+	}
 	st.setComp("CH!closed", Sto(c, ch, n))
 }
 
@@ -40,6 +48,10 @@ func (st *State) chanEnvSend(ch Term, sort string) {
 	sent := st.chSel("CH!sent", ch)
 	n := st.fresh("sent", SI)
 	st.assume(Ge(n, sent))
+	// channels that are only ever closed (context.Done) receive no values
+	if isDoneChan(ch) {
+		st.assume(Eq(n, sent))
+	}
 	a := st.comp("CH!sent", ArrSort(SI, SI))
 	st.setComp("CH!sent", Sto(a, ch, n))
 	// buffer entries beyond the old counter are arbitrary
